@@ -6,7 +6,7 @@ package props
 // the REAL 100 ms flush timer running, the verif hook parks the session
 // goroutine inside generated statements for 120-350 ms (1-3 timer ticks) - at
 // the statement's log write (all its page changes are done, its log append is
-// not), or, for statements that do not log, at a generated cache access.
+// not), or, for statements that do not log, at a generated page lookup (hook page.fetch).
 // Oracles: (1) monitor - while a statement is parked no page or header write
 // and no flush may happen on another goroutine; (2) the race detector as a
 // sanitizer (binary built with -race), its reports scoped to the property.
@@ -45,12 +45,17 @@ type c13Step struct {
 
 type c13Case struct {
 	Steps []c13Step `json:"steps"`
+	// optionally a small page cache, so that reads also evict and reload pages
+	Cache int `json:"cache,omitempty"`
 }
 
 func c13Gen(rt *rapid.T) c13Case {
 	cfg := gen.HistCfg{MaxTables: 3, MaxCols: 3, Direct: false, RowCounts: []int{1, 2, 4, 9, 10}, Small: true}
 	db := model.NewDB()
 	var c c13Case
+	if rapid.Bool().Draw(rt, "smallcache") {
+		c.Cache = rapid.IntRange(10, 16).Draw(rt, "cache")
+	}
 	n := rapid.IntRange(6, 14).Draw(rt, "nsteps")
 	parks := 0
 	for len(c.Steps) < n {
@@ -68,7 +73,7 @@ func c13Gen(rt *rapid.T) c13Case {
 		}
 		if parks < 4 && rapid.IntRange(0, 1).Draw(rt, "park") == 0 {
 			st.ParkMs = rapid.SampledFrom([]int{120, 160, 230, 350}).Draw(rt, "parkms")
-			st.ParkAt = rapid.IntRange(1, 6).Draw(rt, "parkat")
+			st.ParkAt = rapid.IntRange(1, 12).Draw(rt, "parkat")
 			parks++
 		}
 		c.Steps = append(c.Steps, st)
@@ -97,6 +102,8 @@ var c13RaceRe = regexp.MustCompile(`engine\.Evaluate(CreateTable|Insert|Update|D
 // c13RaceReports parses the race detector's log files and returns the reports
 // that are in the property's scope (one side inside a statement evaluator, the
 // other inside the flusher) and the number of out-of-scope ones.
+var c13OutOfScopeSample []string
+
 func c13RaceReports(dir string, from map[string]int64) (inScope []string, outOfScope int) {
 	files, _ := filepath.Glob(filepath.Join(dir, "race.*"))
 	for _, f := range files {
@@ -119,6 +126,17 @@ func c13RaceReports(dir string, from map[string]int64) (inScope []string, outOfS
 				inScope = append(inScope, strings.TrimSpace(block))
 			} else {
 				outOfScope++
+				if len(c13OutOfScopeSample) < 3 {
+					// keep the two access sites for the evidence notes
+					var sites []string
+					lines := strings.Split(block, "\n")
+					for i, l := range lines {
+						if (strings.Contains(l, " by goroutine ") || strings.Contains(l, "by main goroutine")) && i+2 < len(lines) {
+							sites = append(sites, strings.TrimSpace(l)+" -> "+strings.TrimSpace(lines[i+1])+" / "+strings.TrimSpace(lines[i+3]))
+						}
+					}
+					c13OutOfScopeSample = append(c13OutOfScopeSample, strings.Join(sites, " || "))
+				}
 			}
 		}
 	}
@@ -141,12 +159,6 @@ func c13Run(c c13Case, st *vlib.Stats) string {
 	if err != nil {
 		return "setup failed: " + err.Error()
 	}
-	storage.VerifNoTimer = false
-	if err := eng.Exec("USE " + DBName); err != nil {
-		return "USE failed: " + err.Error()
-	}
-	defer eng.Shutdown()
-
 	sess := curGID()
 	var mu sync.Mutex
 	var violations []string
@@ -164,7 +176,7 @@ func c13Run(c c13Case, st *vlib.Stats) string {
 			switch point {
 			case "wal.write":
 				hit = true
-			case "cache.set":
+			case "page.fetch":
 				if atomic.AddInt64(&cacheSets, 1) == atomic.LoadInt64(&parkAt) && atomic.LoadInt64(&parkAt) > 0 {
 					hit = true
 				}
@@ -194,6 +206,15 @@ func c13Run(c c13Case, st *vlib.Stats) string {
 			}
 		}
 	}
+	storage.VerifNoTimer = false
+	if err := eng.Exec("USE " + DBName); err != nil {
+		return "USE failed: " + err.Error()
+	}
+	defer eng.Shutdown()
+	if c.Cache > 0 {
+		eng.RS().VerifSetCacheSize(c.Cache)
+	}
+
 	m := model.NewDB()
 	parkedDML := 0
 	for i, step := range c.Steps {
@@ -221,12 +242,19 @@ func c13Run(c c13Case, st *vlib.Stats) string {
 		if atomic.LoadInt64(&didPark) != 0 && step.Stmt != nil {
 			parkedDML++
 		}
+		if atomic.LoadInt64(&didPark) != 0 {
+			kind := "select"
+			if step.Stmt != nil {
+				kind = step.Stmt.Kind
+			}
+			st.Label("parked-"+kind, 1)
+		}
 		if step.IdleMs > 0 {
 			time.Sleep(time.Duration(step.IdleMs) * time.Millisecond)
 		}
 	}
 	time.Sleep(30 * time.Millisecond)
-	storage.VerifHook = nil
+	atomic.StoreInt64(&parkMs, 0)
 	// contents must still be right (a flush in the wrong place can also lose data)
 	if msg := CompareAll(eng, m, nil); msg != "" {
 		return "after the schedule: " + msg
@@ -250,6 +278,10 @@ func c13Run(c c13Case, st *vlib.Stats) string {
 	if Cfg.OutDir != "" {
 		in, out := c13RaceReports(Cfg.OutDir, c13RaceOffsets)
 		st.AddExtra("race_reports_out_of_scope", out)
+		for _, smp := range c13OutOfScopeSample {
+			st.Note("out-of-scope race report: %s", smp)
+		}
+		c13OutOfScopeSample = nil
 		if len(in) > 0 {
 			r := in[0]
 			if len(r) > 3500 {
